@@ -633,7 +633,7 @@ class _Flow(Exception):
 
 # API methods of the AST classes whose contract is checked by their own rule (M3: but, M5: cast) and which every other
 # rule uses as an opaque fact
-OPAQUE_METHODS = {'but', 'cast'}
+OPAQUE_METHODS = {'but', 'cast', 'simple_events'}     # API of the AST classes that the rules know by name: never looked through at a call
 
 
 def default_inline(fi: FunctionInfo, depth: int) -> bool:
@@ -1767,9 +1767,10 @@ class Evaluator:
             if len(cur.body) != 1:
                 return None
             cur = cur.body[0]
-        if not (isinstance(cur, ast.Expr) and isinstance(cur.value, ast.Call) and isinstance(cur.value.func, ast.Attribute) and cur.value.func.attr == 'append'
+        if not (isinstance(cur, ast.Expr) and isinstance(cur.value, ast.Call) and isinstance(cur.value.func, ast.Attribute) and cur.value.func.attr in ('append', 'extend')
                 and isinstance(cur.value.func.value, ast.Name) and len(cur.value.args) == 1):
             return None
+        extend = cur.value.func.attr == 'extend'
         acc = cur.value.func.value.id
         init = st.env.get(acc)
         if not (isinstance(init, TupleT) and init.kind == 'list' and not init.items):
@@ -1783,6 +1784,10 @@ class Evaluator:
                     sub.env[n.id] = Sym(f'each:{n.id}')
             tgens.append((ast.unparse(tgt), itt, ()))
         elt = self.expr(cur.value.args[0], sub, mod, fi, depth)
+        if extend:
+            # acc.extend(E(x)) for x in xs: [y for x in xs for y in E(x)]
+            tgens.append(('_y', elt, ()))
+            elt = Sym('each:_y')
         return acc, Comp('list', elt, tuple(tgens))
 
     def _with_instance(self, s: ast.With, st: _State, mod, fi, depth, outs) -> Optional[List[_State]]:
